@@ -1146,14 +1146,17 @@ class Engine:
                 # [x for x in <strings> if cond(x)]: some sub-list of the strings (which ones is not tracked)
                 n2 = fresh("sub_n", z3.IntSort()); st0.pc += [n2 >= 0, n2 <= it.n]
                 outs.append((st0, SStrList(fresh("sub", STR_ARR), n2))); continue
-            if isinstance(it, SList) and not gen.ifs:
-                # generator over a symbolic-length list: kept lazy, element expression evaluated once at a bound index (used by any()/all())
-                kvar = fresh("k_gen", z3.IntSort()); saved_l = dict(st0.locals)
-                s.assign(gen.target, SInt(z3.Select(it.arr, kvar)), st0, ctx)
-                r = s.eval(e.elt, st0, ctx)
-                if len(r) != 1 or isinstance(r[0][1], Raised): raise Unsupported("generator element over a symbolic list forks or raises")
-                st0.locals = saved_l
-                outs.append((st0, ("symgen", it, kvar, r[0][1]))); continue
+            if isinstance(it, (SList, SBytes)) and not gen.ifs:
+                # generator over a symbolic-length list / byte string: kept lazy, element expression evaluated once at a bound index (used by any()/all())
+                kvar = fresh("k_gen", z3.IntSort()); saved_l = dict(st0.locals); n0 = len(st0.pc)
+                probe = st0.fork()
+                s.assign(gen.target, SInt(z3.Select(it.arr, kvar)) if isinstance(it, SList) else SBV(it.at(kvar)), probe, ctx)
+                r = s.eval(e.elt, probe, ctx)
+                if any(isinstance(v, Raised) for _, v in r): raise Unsupported("generator element over a symbolic sequence raises")
+                if len(r) == 1: elt = r[0][1]
+                else:       # the element expression short-circuits: one boolean for all its paths
+                    elt = SBool(z3.Or(*[z3.And(*(list(sx.pc[n0:]) + [to_bool(v)])) for sx, v in r]))
+                outs.append((st0, ("symgen", it, kvar, elt))); continue
             if not isinstance(it, (list, tuple)): raise Unsupported(f"comprehension over {it!r} line {e.lineno}")
             frontier = [(st0, [])]
             for item in it:
